@@ -83,11 +83,19 @@ pub fn gen_case(seed: u64, idx: u64, pairs: usize) -> Case {
     let mut rng = Rng::new(mix(seed, tag_of("C19"), idx));
     let mode = *rng.pick(&[Mode::Set, Mode::Sum, Mode::Max, Mode::Min, Mode::Sum, Mode::Min]);
     let nfiles = rng.urange(1, 3);
-    let rows = match rng.below(8) {
-        0 => 0,
-        1 => rng.urange(1, 3),
-        2 | 3 => rng.urange(2, 12),
-        _ => rng.urange(5, 60),
+    // one input in thirty is large enough for a batch of more than 4096
+    // entries (code paths gated on the size of a batch), over a tiny key
+    // universe that contains keys differing only in trailing NUL bytes
+    let large = rng.chance(1, 30);
+    let rows = if large {
+        rng.urange(4100, 5000)
+    } else {
+        match rng.below(8) {
+            0 => 0,
+            1 => rng.urange(1, 3),
+            2 | 3 => rng.urange(2, 12),
+            _ => rng.urange(5, 60),
+        }
     };
     let unique = rng.chance(1, 4);
     let alphabet: Vec<char> = match rng.below(5) {
@@ -104,9 +112,11 @@ pub fn gen_case(seed: u64, idx: u64, pairs: usize) -> Case {
     };
     // one key much longer than any reader buffer (8 KiB, 64 KiB)
     let long_key = if rng.chance(1, 12) { Some(*rng.pick(&[8191usize, 8192, 8193, 65_536, 70_001])) } else { None };
-    let maxlen = if unique { 6 } else { *rng.pick(&[1usize, 2, 2, 3]) };
+    let unique = unique && !large;
+    let alphabet: Vec<char> = if large { vec!['a', 'b', '\0'] } else { alphabet };
+    let maxlen = if large { 4 } else if unique { 6 } else { *rng.pick(&[1usize, 2, 2, 3]) };
     let with_empty_key = rng.chance(1, 3);
-    let big_values = mode != Mode::Set && rng.chance(1, 6);
+    let big_values = mode != Mode::Set && rng.chance(1, 6) && !large;
     let mut files: Vec<Vec<(String, u64)>> = vec![Vec::new(); nfiles];
     let mut seen: BTreeSet<String> = BTreeSet::new();
     let mut guard = 0;
@@ -186,10 +196,15 @@ pub fn gen_case(seed: u64, idx: u64, pairs: usize) -> Case {
             _ => Policy::Pct(rng.urange(1, 4) as u8),
         };
         runs.push(RunCfg {
-            batch_size: match rng.below(4) {
-                0 => 1,
-                1 => total + 1,
-                _ => 1 + rng.below(total as u64 + 1) as u32,
+            batch_size: if total > 1000 {
+                // (thousands of one-row batches would only burn the step budget)
+                *rng.pick(&[total + 1, total + 1, 4096, 4097, 2048, total / 2])
+            } else {
+                match rng.below(4) {
+                    0 => 1,
+                    1 => total + 1,
+                    _ => 1 + rng.below(total as u64 + 1) as u32,
+                }
             },
             fd_limit: rng.urange(2, 6) as u32,
             threads: *rng.pick(&[1u32, 1, 2, 2, 3, 3, 4, 5, 6, 8, 12, 16]),
@@ -253,6 +268,9 @@ fn account(st: &mut WStats, idx: u64, case: &Case, run: &crate::world::CaseRun) 
     bump(&mut st.counters, "knob.tmp_dir_on_another_file_system_invocations", case.runs.iter().filter(|r| r.tmp_on_other_fs).count() as u64);
     if case.input.crlf.iter().any(|b| *b) {
         bump(&mut st.counters, "input.crlf_line_ends", 1);
+    }
+    if case.input.rows() > 4096 {
+        bump(&mut st.counters, "input.more_than_4096_rows", 1);
     }
     if case.input.files.iter().any(|f| f.iter().any(|(k, _)| k.chars().any(|c| (c as u32) >= 0x80 || c == '\0'))) {
         bump(&mut st.counters, "input.keys_with_nul_or_invalid_utf8", 1);
